@@ -397,6 +397,57 @@ def allowed_closure(site, robots, ua, honour_nofollow=False):
     return seen
 
 
+def run_many_origins(case, part):
+    '''One crawl over many origins (more than any plausible size of a rule-file cache): every origin's robots.txt is to be
+    requested once, also for a URL of an early origin that is processed after the rule files of all the others arrived, and
+    the disallowed page of every origin is never requested.'''
+    from harness import servers, crawl
+    n = case['origins']
+    hosts = ['h%03d.test' % i for i in range(n)]
+    addrs, port = servers.allocate_addresses(n)
+    html = [('Content-Type', 'text/html; charset=utf-8')]
+
+    def handler(req):
+        t = req['target']
+        if t == '/robots.txt':
+            return {'status': 200, 'headers': [('Content-Type', 'text/plain')], 'body': b'User-agent: *\nDisallow: /private/\n'}
+        if t in ('/a', '/b'):
+            return {'status': 200, 'headers': html, 'body': b'<html><body><a href="/private/p.html">p</a></body></html>'}
+        return {'status': 404, 'reason': 'NF', 'headers': html, 'body': b'nf'}
+    srv = servers.Server(handler, addrs, port).start()
+    tmp = tempfile.mkdtemp(prefix='vc20m')
+    try:
+        db = os.path.join(tmp, 'crawl.db')
+        argv = ['http://%s/a' % h for h in hosts] + ['http://%s/b' % h for h in hosts] + [
+            '-r', '--level', '2', '--database', db, '-P', tmp, '--delete-after', '--quiet', '--waitretry', '0', '--tries', '1']
+        res = crawl.run_app(argv, dict(zip(hosts, addrs)))
+        log = srv.log.snapshot()
+    finally:
+        srv.stop()
+        shutil.rmtree(tmp, ignore_errors=True)
+    part.evaluations += 1
+    part.count('many_origin_crawls')
+    part.nontrivial_case('many-origins/%d' % n)
+    replay = case
+    if res['crashed'] or res['exit_status'] != 0:
+        part.violation('crawl-crashed/many-origins', {'exit': res['exit_status'], 'exception': res['exception'], 'log': res['log'][-600:]}, replay)
+        return
+    per_host = {}
+    for e in log:
+        per_host.setdefault(norm_host(e['host']), []).append(e['target'])
+    again = sorted(h for h in hosts if per_host.get(h, []).count('/robots.txt') > 1)
+    never = sorted(h for h in hosts if '/robots.txt' not in per_host.get(h, []))
+    private = sorted(h for h in hosts if any(t.startswith('/private/') for t in per_host.get(h, [])))
+    if again:
+        part.violation('robots-txt-requested-again-after-obtained/many-origins', {'origins': n, 'hosts_asked_again': len(again), 'first': again[:3]}, replay)
+    elif never:
+        part.violation('page-requested-before-robots-txt/many-origins', {'origins': n, 'hosts': never[:3]}, replay)
+    else:
+        part.count('many_origins_each_robots_txt_once', n)
+    if private:
+        part.violation('disallowed-url-requested/many-origins', {'origins': n, 'hosts': private[:3]}, replay)
+
+
 def worker(job):
     import compat
     compat.install()
@@ -405,6 +456,9 @@ def worker(job):
     part = common.Part()
     cases = [job['replay']] if 'replay' in job else job['cases']
     for case in cases:
+        if case.get('mode') == 'many-origins':
+            run_many_origins(case, part)
+            continue
         run_case(case, part)
         if len(part.samples) < 2:
             part.sample(case)
@@ -427,6 +481,8 @@ def main():
         rng = random.Random(check.seed)
         total = int((4000 if check.thorough else 320) * check.scale)
         cases = [gen_case(rng) for _ in range(total)]
+        for n in ([65, 70, 130] if not check.thorough else [10, 63, 64, 65, 66, 70, 100, 127, 128, 129, 130, 200, 250]):
+            cases.insert(rng.randrange(len(cases)), {'mode': 'many-origins', 'origins': n})
         nj = check.jobs * (4 if check.thorough else 1)
         # one hash seed per job: the order in which the scraper hands over the links of a page varies with it
         jobs = [{'cases': [dict(c, hashseed=i) for c in cases[i::nj]], '_env': {'PYTHONHASHSEED': i}} for i in range(nj) if cases[i::nj]]
